@@ -12,6 +12,7 @@ def run(ctx, model):
     # LogixDriver.open() as a whole == its Lean model (Logix/Open.lean): frames, outcome, tag database, info, target state
     logixdrv.run_open(ctx, model, "C05")
     logixdrv.run_reupload(ctx, model, "C05")
+    logixdrv.run_reupload_pair(ctx, model, "C05")
     from props import kernels
     kernels.run_filter(ctx, model, "C05")
     kernels.run_upload_parsers(ctx, model, "C05")
